@@ -105,12 +105,14 @@ class RelaxationTensor(SuperOperator, Secular, Saveable):
         if self.data.ndim == 4:
             N = self.data.shape[0]
             
-            self.secular_GG = numpy.einsum("ijij->ij", self.data)
+            # einsum returns a view of the data here; the diagonal is zeroed
+            # below, so we need a copy
+            self.secular_GG = numpy.einsum("ijij->ij", self.data).copy()
             for ii in range(N):
                 self.secular_GG[ii,ii] = 0.0
         else:
             N = self.data.shape[1]
-            self.secular_GG = numpy.einsum("hijij->hij", self.data)            
+            self.secular_GG = numpy.einsum("hijij->hij", self.data).copy()
             for ii in range(N):
                 self.secular_GG[:,ii,ii] = 0.0
 
